@@ -393,7 +393,11 @@ func main() {
 		maxLen, maxFixed = 5, 4
 	}
 	for first := range alphabet {
-		scenarios = append(scenarios, historyScenario(first, maxLen, 0))
+		h := historyScenario(first, maxLen, 0)
+		if maxLen >= 5 {
+			h.Shards = 8 // ~10^6 executions per first step: spread over work items well inside the time budget
+		}
+		scenarios = append(scenarios, h)
 		scenarios = append(scenarios, historyScenario(first, maxFixed, 60001))
 	}
 	// discovery under all interleavings of the reader goroutine and the caller (preemption bound 2)
